@@ -29,6 +29,50 @@ theorem branch_args_operands {i : Instr} {b : BlockId} {as : List Val} (h : i.br
 theorem branch_results {i : Instr} {b : BlockId} {as : List Val} (h : i.branch? = some (b, as)) : i.results = [] := by
   rcases branch_cases h with h | ⟨cv, h⟩ | ⟨cv, h⟩ <;> subst h <;> rfl
 
+theorem sublist_flatMap {α β} {g g' : α → List β} (l : List α) (h : ∀ a ∈ l, (g' a).Sublist (g a)) :
+    (l.flatMap g').Sublist (l.flatMap g) := by
+  induction l with
+  | nil => exact List.Sublist.refl _
+  | cons a l ih =>
+    simp only [List.flatMap_cons]
+    exact List.Sublist.append (h a (List.mem_cons_self ..)) (ih (fun x hx => h x (List.mem_cons_of_mem _ hx)))
+
+/-- an element that disappears when one index is erased sits at that index -/
+theorem getElem?_of_mem_not_mem_eraseIdx {α} {l : List α} {k : Nat} {x : α} (hx : x ∈ l) (hn : x ∉ l.eraseIdx k) :
+    l[k]? = some x := by
+  induction l generalizing k with
+  | nil => cases hx
+  | cons a l ih =>
+    cases k with
+    | zero =>
+      simp only [List.eraseIdx_cons_zero] at hn
+      cases hx with
+      | head => rfl
+      | tail _ hx => exact absurd hx hn
+    | succ k =>
+      simp only [List.eraseIdx_cons_succ, List.mem_cons, not_or] at hn
+      cases hx with
+      | head => exact absurd rfl hn.1
+      | tail _ hx => simpa using ih hx hn.2
+
+theorem block_eq_of_id {f : Func} (hu : UniqueIds f) {B C : Block} (hB : B ∈ f.blocks) (hC : C ∈ f.blocks)
+    (h : B.id = C.id) : B = C := by
+  have h1 := find_of_nodup_ids f.blocks hu hB
+  have h2 := find_of_nodup_ids f.blocks hu hC
+  rw [h] at h1; rw [h1] at h2; exact Option.some.inj h2
+
+theorem dropArg_branch_target (b : BlockId) (idx : Nat) (i : Instr) :
+    (i.dropArg b idx).branch?.map (·.1) = i.branch?.map (·.1) := by
+  rw [dropArg_branch]
+  cases i.branch? <;> rfl
+
+theorem dropArg_constNoKey (al : List (Val × Val)) (b : BlockId) (idx : Nat) (i : Instr)
+    (h : ConstNoKey al i) : ConstNoKey al (i.dropArg b idx) := by
+  cases i <;> try exact h
+  case jump t as => by_cases ht : t = b <;> simp [Instr.dropArg, Instr.branch?, Instr.setBranchArgs, ConstNoKey, ht]
+  case brz cv t as => by_cases ht : t = b <;> simp [Instr.dropArg, Instr.branch?, Instr.setBranchArgs, ConstNoKey, ht]
+  case brnz cv t as => by_cases ht : t = b <;> simp [Instr.dropArg, Instr.branch?, Instr.setBranchArgs, ConstNoKey, ht]
+
 section step
 
 variable {c : Cert} {f : Func} (hwf : WF c f) {b : BlockId} {idx : Nat} {p u : Val} {pty : Ty} {B0 : Block}
@@ -499,6 +543,281 @@ theorem removeParam_run (w : World) (args : List Nat) (fuel : Nat) :
     · intro T hT q hq hqn
       obtain ⟨hTm, hTid, _⟩ := findBlock_mem hT
       exact absurd (hwf.entryGhost T hTm hTid q hq) hqn
+
+/-- the new parameters of a block -/
+private theorem rp_params_of_ne {T : Block} (h : T.id ≠ b) : (rpBlock b idx T).params = T.params := by
+  simp [rpBlock, h]
+
+private theorem rp_params_B0 : (rpBlock b idx B0).params = B0.params.eraseIdx idx := by
+  obtain ⟨_, hid, hv, _⟩ := B0_facts hwf hB0 hbne hp hred
+  simp [rpBlock, hid, hv]
+
+private theorem p_idx : (B0.params.map (·.1))[idx]? = some p := by
+  rw [List.getElem?_map, hp]; rfl
+
+/-- both values resolve to the unique value in the new table -/
+private theorem res_new_of_case {a : Val} (h : res f.alias a = p ∨ res f.alias a = res f.alias u) :
+    res (aliasInsert f.alias p u) a = res f.alias u := by
+  rw [res_new hwf hB0 hbne hp hred]
+  rcases h with h | h
+  · rw [if_pos h]
+  · rw [h, if_neg (t_ne hwf hB0 hbne hp hred)]
+
+private theorem instrOK_rp {B : Block} (hB : B ∈ f.blocks) {V : List Val} {i : Instr} (hiB : i ∈ B.instrs)
+    (hok : InstrOK c f B V i) : InstrOK c (removeParam f b idx p u) (rpBlock b idx B) V (i.dropArg b idx) := by
+  have hi : i ∈ f.allInstrs := mem_allInstrs.mpr ⟨B, hB, hiB⟩
+  obtain ⟨h1, h2, h3, h4, h5, h6⟩ := hok
+  refine ⟨?_, ?_, ?_, ?_, ?_, ?_⟩
+  · intro o ho
+    obtain ⟨v, hv, hov⟩ := h1 o (dropArg_operands_sub b idx i o ho)
+    exact ⟨v, hv, ext_insert p u o v hov⟩
+  · intro r0 hr0
+    rw [dropArg_results] at hr0
+    rcases h2 r0 hr0 with h | ⟨v, hv, hrv⟩
+    · left
+      show res (aliasInsert f.alias p u) r0 = r0
+      rw [res_new hwf hB0 hbne hp hred, h, if_neg (fun h' => p_not_result hwf hB0 hbne hp hred hi (by rw [← h']; exact hr0))]
+    · exact Or.inr ⟨v, hv, ext_insert p u r0 v hrv⟩
+  · rw [dropArg_results]; exact h3
+  · rw [dropArg_typedResults]; exact h4
+  · cases i <;> try trivial
+    case jump t as => by_cases ht : t = b <;> simp [Instr.dropArg, Instr.branch?, Instr.setBranchArgs, ht]
+    case brz cv t as => by_cases ht : t = b <;> simp [Instr.dropArg, Instr.branch?, Instr.setBranchArgs, ht]
+    case brnz cv t as => by_cases ht : t = b <;> simp [Instr.dropArg, Instr.branch?, Instr.setBranchArgs, ht]
+  · rw [dropArg_branch]
+    cases hbr : i.branch? with
+    | none => simp only [Option.map_none]
+    | some q =>
+      obtain ⟨t', as⟩ := q
+      rw [hbr] at h6
+      simp only [Option.map_some] at h6 ⊢
+      rw [findBlock_removeParam]
+      cases hT : f.findBlock t' with
+      | none => rw [hT] at h6; exact h6.elim
+      | some T =>
+        rw [hT] at h6
+        simp only [Option.map_some] at h6 ⊢
+        obtain ⟨hlen, hav, htys, hgh⟩ := h6
+        obtain ⟨hTm, hTid, hTv⟩ := findBlock_mem hT
+        by_cases hb : t' = b
+        · subst hb
+          have hTB : T = B0 := by rw [hT] at hB0; exact Option.some.inj hB0
+          subst hTB
+          rw [rp_params_B0 hwf hB0 hbne hp hred]
+          simp only [if_true]
+          refine ⟨length_eraseIdx_eq idx hlen, hav, ?_, ?_⟩
+          · intro pr hpr
+            rw [zip_eraseIdx] at hpr
+            exact htys pr (mem_of_mem_eraseIdx hpr)
+          · intro q hq hqn
+            show ∃ v ∈ V, res (aliasInsert f.alias p u) q = res (aliasInsert f.alias p u) v
+            by_cases hqp : q ∈ T.params.map (·.1)
+            · -- the parameter that is removed now
+              rw [map_eraseIdx] at hqn
+              have := getElem?_of_mem_not_mem_eraseIdx hqp hqn
+              rw [p_idx hwf hB0 hbne hp hred] at this
+              cases this
+              obtain ⟨_, a, ha, hcase, ⟨v, hv, hav'⟩, _⟩ := branch_arg hwf hB0 hbne hp hred hB hiB
+                ⟨h1, h2, h3, h4, h5, by rw [hbr]; simp only [hT]; exact ⟨hlen, hav, htys, hgh⟩⟩ hbr
+              refine ⟨v, hv, ?_⟩
+              have e1 : res (aliasInsert f.alias p u) v = res f.alias u :=
+                res_new_of_case hwf hB0 hbne hp hred (by rw [← hav']; exact hcase)
+              have e2 : res (aliasInsert f.alias p u) p = res f.alias u := by
+                rw [res_new hwf hB0 hbne hp hred, res_of_none (p_facts hwf hB0 hbne hp hred).2.2.1, if_pos rfl]
+              rw [e1, e2]
+            · obtain ⟨v, hv, hqv⟩ := hgh q hq hqp
+              exact ⟨v, hv, ext_insert p u q v hqv⟩
+        · have hne : T.id ≠ b := hTid ▸ hb
+          rw [rp_params_of_ne hwf hB0 hbne hp hred hne]
+          simp only [hb, if_false]
+          refine ⟨hlen, hav, htys, fun q hq hqn => ?_⟩
+          obtain ⟨v, hv, hqv⟩ := hgh q hq hqn
+          exact ⟨v, hv, ext_insert p u q v hqv⟩
+
+private theorem bodyOK_rp {B : Block} (hB : B ∈ f.blocks) :
+    ∀ (is : List Instr) (V : List Val), (∀ i ∈ is, i ∈ B.instrs) → BodyOK c f B V is →
+      BodyOK c (removeParam f b idx p u) (rpBlock b idx B) V (is.map (Instr.dropArg b idx)) := by
+  intro is
+  induction is with
+  | nil => intro V _ _; trivial
+  | cons i is ih =>
+    intro V hsub h
+    refine ⟨instrOK_rp hwf hB0 hbne hp hred hB (hsub i (List.mem_cons_self ..)) h.1, ?_⟩
+    rw [dropArg_results]
+    exact ih _ (fun j hj => hsub j (List.mem_cons_of_mem _ hj)) h.2
+
+/-- **Removing a redundant parameter preserves well-formedness** (with the same certificate). -/
+theorem removeParam_wf : WF c (removeParam f b idx p u) := by
+  obtain ⟨hB0m, hB0id, hB0v, hB0ok⟩ := B0_facts hwf hB0 hbne hp hred
+  obtain ⟨hppd, hpcty, hpkey, hprk⟩ := p_facts hwf hB0 hbne hp hred
+  have htne := t_ne hwf hB0 hbne hp hred
+  obtain ⟨htrk, htcty⟩ := rank_t hwf hB0 hbne hp hred
+  have hpm := p_mem hwf hB0 hbne hp hred
+  refine ⟨?_, ?_, alRank_new hwf hB0 hbne hp hred, ?_, ?_, ?_, ?_, ?_, hwf.Mpos, ?_⟩
+  · -- ids
+    show ((f.blocks.map (rpBlock b idx)).map (·.id)).Nodup
+    rw [List.map_map]
+    exact hwf.ids
+  · exact (aliasNF_iff _).mp (aliasNF_insert ((aliasNF_iff _).mpr hwf.nf) p u)
+  · -- types
+    intro e he
+    rcases mem_aliasInsert htne hpkey he with h | ⟨e0, he0, hk1, ht | ⟨ht1, ht2⟩⟩
+    · subst h; show c.cty p = c.cty (res f.alias u); rw [hpcty, htcty]
+    · rw [hk1, ht]; exact hwf.alTy e0 he0
+    · have := hwf.alTy e0 he0
+      rw [hk1, ht2, this, ht1, hpcty, htcty]
+  · -- constants
+    intro i' hi'
+    rw [allInstrs_removeParam] at hi'
+    obtain ⟨i, hi, hii⟩ := List.mem_map.mp hi'
+    subst hii
+    apply dropArg_constNoKey
+    have hold := hwf.constKey i hi
+    cases i <;> simp only [ConstNoKey] at hold ⊢
+    case iconst r0 ty0 k0 =>
+      show aliasGet (aliasInsert f.alias p u) r0 = none
+      rw [aliasGet_insert htne hpkey]
+      split
+      · rename_i hpr
+        exact absurd (hpr ▸ (by simp [Instr.results])) (p_not_result hwf hB0 hbne hp hred hi)
+      · rw [hold]; rfl
+  · -- unique definitions
+    apply List.Nodup.sublist _ hwf.uniq
+    show ((f.blocks.map (rpBlock b idx)).flatMap _).Sublist _
+    rw [List.flatMap_map]
+    apply sublist_flatMap
+    intro B _
+    apply List.Sublist.append
+    · simp only [rpBlock]
+      split
+      · exact List.Sublist.map _ (List.eraseIdx_sublist _ _)
+      · exact List.Sublist.refl _
+    · simp only [rpBlock, List.flatMap_map, dropArg_results]
+      exact List.Sublist.refl _
+  · rw [entry_removeParam]; exact hwf.entryAvail
+  · -- the entry block keeps its parameters
+    intro B' hB' hid q hq
+    rw [entry_removeParam] at hid hq
+    rw [removeParam_blocks] at hB'
+    obtain ⟨B, hB, hBB⟩ := List.mem_map.mp hB'
+    subst hBB
+    have hne : B.id ≠ b := fun h => hbne (h ▸ hid)
+    rw [rp_params_of_ne hwf hB0 hbne hp hred hne]
+    exact hwf.entryGhost B hB hid q hq
+  · -- blocks
+    intro B' hB' hBv'
+    rw [removeParam_blocks] at hB'
+    obtain ⟨B, hB, hBB⟩ := List.mem_map.mp hB'
+    subst hBB
+    have hBv : B.invalid = false := hBv'
+    obtain ⟨hpr, hpd, hghk, havr, hbody, hfwd⟩ := hwf.blocks B hB hBv
+    have hsubp : ∀ q, q ∈ (rpBlock b idx B).params → q ∈ B.params := by
+      intro q hq
+      simp only [rpBlock] at hq
+      split at hq
+      · exact mem_of_mem_eraseIdx hq
+      · exact hq
+    refine ⟨?_, hpd, ?_, havr, ?_, ?_⟩
+    · intro p' hp'
+      have hp'' := hsubp p' hp'
+      refine ⟨(hpr p' hp'').1, (hpr p' hp'').2.1, ?_⟩
+      show aliasGet (aliasInsert f.alias p u) p'.1 = none
+      rw [aliasGet_insert htne hpkey]
+      split
+      · rename_i hpp
+        exfalso
+        by_cases hb : B.id = b
+        · have hBB0 : B = B0 := block_eq_of_id hwf.ids hB hB0m (hb.trans hB0id.symm)
+          subst hBB0
+          rw [rp_params_B0 hwf hB0 hbne hp hred] at hp'
+          have hm : p'.1 ∈ (B.params.map (·.1)).eraseIdx idx := by
+            rw [← map_eraseIdx]; exact List.mem_map_of_mem hp'
+          exact mem_eraseIdx_ne (params_nodup hwf.uniq hB) hm (p_idx hwf hB0 hbne hp hred) hpp.symm
+        · have : B = B0 := def_block_unique hwf.uniq hB hB0m
+            (List.mem_append_left _ (List.mem_map_of_mem hp''))
+            (List.mem_append_left _ (hpp ▸ List.mem_map_of_mem hpm))
+          exact hb (this ▸ hB0id)
+      · rw [(hpr p' hp'').2.2]; rfl
+    · intro q hq hqn
+      show aliasGet (aliasInsert f.alias p u) q ≠ none
+      by_cases hqp : q ∈ B.params.map (·.1)
+      · by_cases hb : B.id = b
+        · have hBB0 : B = B0 := block_eq_of_id hwf.ids hB hB0m (hb.trans hB0id.symm)
+          subst hBB0
+          rw [rp_params_B0 hwf hB0 hbne hp hred, map_eraseIdx] at hqn
+          have := getElem?_of_mem_not_mem_eraseIdx hqp hqn
+          rw [p_idx hwf hB0 hbne hp hred] at this
+          cases this
+          rw [aliasGet_insert htne hpkey, if_pos rfl]
+          simp
+        · rw [rp_params_of_ne hwf hB0 hbne hp hred hb] at hqn
+          exact absurd hqp hqn
+      · exact aliasGet_insert_ne_none (hghk q hq hqp)
+    · exact bodyOK_rp hwf hB0 hbne hp hred hB B.instrs _ (fun _ h => h) hbody
+    · intro hne
+      rw [entry_removeParam] at hne
+      obtain ⟨P, hP, hPv, hlt, i, hiP, hbr⟩ := hfwd hne
+      refine ⟨rpBlock b idx P, List.mem_map_of_mem hP, hPv, hlt, i.dropArg b idx, List.mem_map_of_mem hiP, ?_⟩
+      rw [dropArg_branch_target]; exact hbr
+
+/-- A parameter with a smaller index that was redundant stays redundant after the removal (its unique value is
+resolved through the new table by `aliasInsert`). -/
+theorem redundant_after {idx' : Nat} {p' u' : Val} {ty' : Ty} (hlt : idx' < idx)
+    (hp' : B0.params[idx']? = some (p', ty')) (hred' : Redundant f b idx' p' u') :
+    Redundant (removeParam f b idx p u) b idx' p' u' := by
+  obtain ⟨hB0m, _, _, _⟩ := B0_facts hwf hB0 hbne hp hred
+  intro a' ha'
+  simp only [Func.branchArgs, allInstrs_removeParam, List.mem_filterMap, List.mem_map] at ha'
+  obtain ⟨i', ⟨i, hi, hii⟩, hsome⟩ := ha'
+  subst hii
+  rw [dropArg_branch] at hsome
+  cases hbr : i.branch? with
+  | none => rw [hbr] at hsome; simp at hsome
+  | some q =>
+    obtain ⟨t', as⟩ := q
+    rw [hbr] at hsome
+    simp only [Option.map_some] at hsome
+    split at hsome
+    · rename_i htb
+      subst htb
+      simp only [if_true, List.getElem?_eraseIdx, if_pos hlt] at hsome
+      cases ha : as[idx']? with
+      | none => rw [ha] at hsome; simp at hsome
+      | some a =>
+        rw [ha] at hsome
+        simp only [Option.map_some, Option.some.injEq] at hsome
+        subst hsome
+        have hold := hred' _ (mem_branchArgs hi hbr ha)
+        show res (aliasInsert f.alias p u) a = p' ∨ res (aliasInsert f.alias p u) a = res (aliasInsert f.alias p u) u'
+        rw [res_new hwf hB0 hbne hp hred a, res_new hwf hB0 hbne hp hred u']
+        rcases hold with h | h
+        · left
+          rw [h]
+          have hne : p' ≠ p := by
+            intro he
+            have hnd := params_nodup hwf.uniq hB0m
+            have h1 : (B0.params.map (·.1))[idx']? = some p' := by rw [List.getElem?_map, hp']; rfl
+            have h2 := p_idx hwf hB0 hbne hp hred
+            rw [he] at h1
+            have hi1 : idx' < (B0.params.map (·.1)).length := by
+              cases hlt' : decide (idx' < (B0.params.map (·.1)).length) with
+              | true => simpa using hlt'
+              | false =>
+                have : (B0.params.map (·.1)).length ≤ idx' := by simpa using hlt'
+                rw [List.getElem?_eq_none this] at h1; cases h1
+            have hi2 : idx < (B0.params.map (·.1)).length := by
+              cases hlt' : decide (idx < (B0.params.map (·.1)).length) with
+              | true => simpa using hlt'
+              | false =>
+                have : (B0.params.map (·.1)).length ≤ idx := by simpa using hlt'
+                rw [List.getElem?_eq_none this] at h2; cases h2
+            rw [List.getElem?_eq_getElem hi1] at h1
+            rw [List.getElem?_eq_getElem hi2] at h2
+            have := (List.pairwise_iff_getElem.mp hnd) idx' idx hi1 hi2 hlt
+            exact this ((Option.some.inj h1).trans (Option.some.inj h2).symm)
+          rw [if_neg hne]
+        · right; rw [h]
+    · simp at hsome
 
 end step
 
